@@ -15,7 +15,11 @@ from selftest import mutgen  # noqa: E402
 
 CLASSES = [
     # (regex on "function|mutation", reason)
-    (r"swapargs: `(\w+\.)?(has_edge|remove_edge|add_edge)\(", "symmetric operation on an undirected graph: equivalent"),
+    (r"swapargs: `([\w.]+\.)?(has_edge|remove_edge|add_edge)\(", "symmetric operation on an undirected graph: equivalent"),
+    (r"^EECC\.limited_maximal_cliques\|cmp: `clique_size > self\._m0` -> `clique_size >= self\._m0`", "a clique of exactly m0 vertices decomposes into itself: equivalent (independent differential audit, DESIGN 10.7 (d))"),
+    (r"^EECC\.limited_maximal_cliques\|delstmt: `C\[c\] = sorted\(C\[c\]\)`", "maximal cliques kept whole are distinct vertex sets and everything is sorted after the de-duplication: equivalent (differential run, DESIGN 10.7 (d))"),
+    (r"^AutomatedEquation\.get_edge_combinations\|const-: `1` -> `0`", "subset sizes 0..E-1: the full subset never leaves a component of two or more vertices connected: equivalent (independent differential audit)"),
+    (r"^MessagePassing\.calculate_H_tau\|delstmt: `continue` -> `pass`", "the focal vertex's own product only becomes the root's `u`, which the equation never reads: equivalent (independent differential audit)"),
     (r"swapargs: `self\._MPM\.get_edge_cover_label\(", "the label is an attribute of the undirected edge {i, j}: equivalent"),
     (r"swapargs: `zip\((e0s, e1s|a, b)\)`", "both orders pair the same elements and the body is symmetric in them (motif ids compared / undirected edge built): equivalent"),
     (r"swapargs: `max\(0,", "max is symmetric: equivalent"),
